@@ -128,6 +128,17 @@ def gen_selector(rng, shape, want=None, allow_list=False):
     nr, nc = shape
     if want == 'cell':
         return {'k': 'cell', 'r': rng.randint(1, nr), 'c': rng.randint(1, nc), 'form': rng.choice(['str', 'tup', 'lab'])}
+    if isinstance(want, tuple) and rng.random() < 0.25:
+        # the wanted shape as a stepped selection (every 2nd / 3rd row or column): interleaves with its neighbours
+        h, w = want
+        sr = rng.choice([s for s in (1, 2, 3) if (h - 1) * s + 1 <= nr])
+        sc = rng.choice([s for s in (1, 2, 3) if (w - 1) * s + 1 <= nc])
+        if sr > 1 or sc > 1:
+            r0 = rng.randint(1, nr - (h - 1) * sr)
+            c0 = rng.randint(1, nc - (w - 1) * sc)
+            r1, c1 = r0 + (h - 1) * sr, c0 + (w - 1) * sc
+            return {'k': 'rect', 'r': [r0, r1 if rng.random() < 0.7 or r1 + sr <= nr else None, sr if sr > 1 else None],
+                    'c': [c0, c1 if rng.random() < 0.7 or c1 + sc <= nc else None, sc if sc > 1 else None], 'rl': False, 'cl': False}
     if isinstance(want, tuple):
         h, w = want
         r0 = rng.randint(1, nr - h + 1)
@@ -328,7 +339,7 @@ class GenA:
             cand = [n for n in names if not self.W.msubs[n].is_enzyme and n not in chosen]
             if cand:
                 n = rng.choice(cand)
-                amt = round_sig(rng, loguniform(rng, 1.2e7, 1e9) * float(self.W.q_amt(n)), True)
+                amt = round_sig(rng, loguniform(rng, 2e4 if rng.random() < 0.5 else 1.2e7, 1e9) * float(self.W.q_amt(n)), True)
                 q = fmt_quantity(rng, amt, 'mol')
                 contents.append([n, q])
                 val, bu = M.parse_quantity(q)
@@ -381,14 +392,14 @@ class GenA:
         if r < 0.25:
             rows = [f"r{i}" for i in range(1, nr + 1)] if rng.random() < 0.5 else [chr(ord('h') + i) for i in range(nr)]
         elif r < 0.31 and nr <= 26:
-            rows = case_pairs(nr, 'p')
+            rows = case_pairs(nr, 'a' if nr > 20 else 'p')
         elif r < 0.37 and 2 <= nr <= 26:
             # the default letters, in another order (row 'A' is not the first row)
             rows = [chr(ord('A') + i) for i in range(nr)]
             rows = rows[::-1] if rng.random() < 0.5 else rows[1:] + rows[:1]
         r = rng.random()
         if r < 0.06 and nc <= 26:
-            cols = case_pairs(nc, 'u')
+            cols = case_pairs(nc, 'a' if nc > 10 else 'u')
         elif r < 0.25:
             cols = [f"c{j}" for j in range(1, nc + 1)]
         elif rng.random() < 0.2:
@@ -809,6 +820,9 @@ class GenA:
             return None
         m, obj = self.latest_model(*t)
         solutes = [n for n, a in m.contents.items() if a > 10 ** 7 * W.q_amt(n) and not W.msubs[n].is_enzyme]
+        trace = [n for n, a in m.contents.items() if 10 ** 4 * W.q_amt(n) < a <= 10 ** 8 * W.q_amt(n) and not W.msubs[n].is_enzyme]
+        if trace and rng.random() < self.p.get('p_trace_solute', 0.5):
+            solutes = trace         # a component present in traces only (nanomolar and below)
         if not solutes:
             if rng.random() < 0.9:
                 return None
@@ -916,16 +930,34 @@ class GenA:
         solute = rng.choice(solutes)
         present = [n for n in liquids if m.contents.get(n, 0) > 0]
         solvent = rng.choice(present or liquids)
-        cur = W.model.concentration_base(m, solute, 'mol', 'L')
+        # mostly molar targets and a volume; sometimes another concentration form and a quantity by mass or moles
+        num, den, units = ('mol', 'L', 'M')
+        qunit = 'L'
+        if rng.random() < self.p.get('p_solution_from_forms', 0.3):
+            num, den, units = rng.choice([('mol', 'L', 'mM'), ('g', 'L', 'mg/mL'), ('mol', 'g', 'mol/kg'), ('g', 'g', '%w/w'), ('g', 'L', '%w/v')])
+            qunit = rng.choice(['L', 'g', 'g', 'mol'])
+        cur = W.model.concentration_base(m, solute, num, den)
         if not cur:
             return None
         c = cur * F(repr(round(rng.uniform(0.1, 0.9), 2)))
         if c < self.p.get('min_conc_base', 0):
             return None
-        vol = W.model.volume(m) * F(repr(round(rng.uniform(0.05, 0.6), 2)))
+        total = W.model.total(m, qunit) * F(repr(round(rng.uniform(0.05, 0.6), 2)))
+        if total <= 0:
+            return None
+        solv = solvent
+        if rng.random() < self.p.get('p_container_solvent', 0.25):
+            # the solvent comes out of another container (which may hold some of the solute already)
+            cand = [n for n in self.names('container') if n != t[0]]
+            rng.shuffle(cand)
+            for n in cand:
+                mm, _ = self.latest_model(n, -1)
+                if any(a > 0 and W.msubs[x].kind == M.LIQUID for x, a in mm.contents.items()):
+                    solv = [n, -1]
+                    break
         self.n_sol += 1
-        return {'op': 'solution_from', 'src': [t[0], t[1]], 'solute': solute, 'conc': f"{dec(c, 6)} M", 'solvent': solvent,
-                'q': fmt_quantity(rng, vol, 'L', digits=6), 'name': f"F{self.n_sol}", 'obs': rng.randrange(1 << 30)}
+        return {'op': 'solution_from', 'src': [t[0], t[1]], 'solute': solute, 'conc': self.fmt_conc(c, units, digits=6), 'solvent': solv,
+                'q': fmt_quantity(rng, total, qunit, digits=6), 'name': f"F{self.n_sol}", 'obs': rng.randrange(1 << 30)}
 
     def gen_hold_slice(self):
         t = self.pick('plate')
